@@ -70,7 +70,8 @@ def ev(node, env):
     raise ValueError("kind " + k)
 
 
-def check(rep, F, tier, replay=None):
+def hdr_rule(rep, F):
+    """HDR: the header table of the address writer against the strict parser (shared with C01)"""
     # ---------------- HDR writer table ---------------------------------------------------------
     rep.rule("HDR", "every header byte a to_bytes arm can emit falls in the from_bytes arm of the same variant; credential bits and network nibble agree")
     w = find_fn(rep, F, "Address::to_bytes")
@@ -211,6 +212,11 @@ def check(rep, F, tier, replay=None):
         rep.violation("HDR", "overlap", "strict-parser nibble patterns overlap between variants: %s" % {k: sorted(v) for k, v in reader.items()}, {})
     if writer and reader:
         rep.sample({"rule": "HDR", "reader_nibbles": {k: sorted(v) for k, v in reader.items()}, "writer_headers": {k: sorted({"0x%02x" % h for h in v.values()})[:4] for k, v in writer.items()}})
+    return w, r
+
+
+def check(rep, F, tier, replay=None):
+    w, r = hdr_rule(rep, F)
     # ---------------- STRICT -------------------------------------------------------------------
     rep.rule("STRICT", "each Shelley arm has a NotEnough exit and a `TrailingData && !ignore_leftover_bytes` exit; the Byron parser compares consumed and total length")
     if r:
